@@ -1,1 +1,38 @@
-fn main(){}
+//! Engine C: direct harnesses around `range_map.rs` (C11) and `char_range_gen` (C18).
+//! usage: enginec rangemap|tablegen quick|thorough <seed>   |   enginec replay-rangemap '<json>'
+//! Prints one JSON report on stdout.
+#![allow(dead_code)]
+
+mod rangemap;
+mod tablegen;
+
+fn main() {
+    let args: Vec<String> = std::env::args().skip(1).collect();
+    let thorough = args.get(1).map(|s| s == "thorough").unwrap_or(false);
+    let seed: u64 = args.get(2).and_then(|s| s.parse().ok()).unwrap_or(0);
+    let report = match args.first().map(|s| s.as_str()) {
+        Some("rangemap") => rangemap::run(thorough, seed),
+        Some("tablegen") => tablegen::run(thorough, seed),
+        Some("replay-rangemap") => rangemap::replay(args.get(1).map(|s| s.as_str()).unwrap_or("[]")),
+        Some("replay-tablegen") => tablegen::replay(args.get(1).map(|s| s.as_str()).unwrap_or("{}")),
+        _ => {
+            eprintln!("usage: enginec rangemap|tablegen quick|thorough <seed>");
+            std::process::exit(2);
+        }
+    };
+    println!("{}", report);
+}
+
+pub fn rng_seed(seed: u64, salt: &str) -> [u8; 32] {
+    let mut h1: u64 = 0xcbf29ce484222325;
+    for b in format!("{}|{}", seed, salt).bytes() {
+        h1 ^= b as u64;
+        h1 = h1.wrapping_mul(0x100000001b3);
+    }
+    let mut bytes = [0u8; 32];
+    bytes[..8].copy_from_slice(&h1.to_le_bytes());
+    bytes[8..16].copy_from_slice(&seed.to_le_bytes());
+    bytes[16..24].copy_from_slice(&h1.rotate_left(23).to_le_bytes());
+    bytes[24..32].copy_from_slice(&(h1 ^ seed).to_le_bytes());
+    bytes
+}
